@@ -1,16 +1,22 @@
 (* C01 - parsing a well-formed command line recovers exactly the intended values.
 
-   FULL STATEMENT (parse_spells), not proved here:
+   FULL STATEMENT (parse_spells), proved below:
      forall f (d : line description: command-name spellings, option items in the forms --n=v / --n v / -nv / -n v /
-     bare / grouped, positionals, optional "--" tail), wf_line f d = true -> forall lenient,
-       parse lenient f (render d) = Ok (denote f d).
-   What IS proved: the read side (access by long name, short name or position agrees; everything not set
-   reports its default), that nothing after "--" is read as an option, and - shared with C02/C05 - that
-   lenient and strict parsing agree on every line strict parsing accepts and that the result does not depend
-   on the parser object's history.  The functional statement itself is decided by the correspondence run:
-   the model equals the implementation on every generated spelling, and the implementation's result equals
-   the assignment computed independently by the oracle.  Named partial in MANIFEST/DESIGN. *)
-From Clikit Require Import Base.Prelude Base.Res Model.Conv Model.Format Model.Parser Proofs.ParserLemmas.
+     bare / grouped, positionals, optional "--" tail), fmt_ok f = true -> wf_line f d = true -> forall lenient,
+       parse f lenient (render d) = Ok (denote f d).
+   Line descriptions, render, wf_line (the side conditions), denote (the intended assignment) and fmt_ok (the
+   hypothesis on the format: the parser's augmented format is what it is meant to be) are the executable
+   definitions of Model/Spell.v; the proof is in Proofs/SpellOpts.v, SpellArgs.v, SpellLemmas.v.  The three stages
+   of the proof plan (options only; + positionals and "--"; + command names) are all closed; stage 3 is the full
+   statement.  parse_spells_not_vacuous exhibits a format (command names with aliases, required / typed optional /
+   multi-valued arguments, six options of every value mode) and a line using every item form that satisfy the
+   hypotheses.
+   Also proved: the read side (access by long name, short name or position agrees; everything not set reports its
+   default), that nothing after "--" is read as an option, and - shared with C02/C05 - that lenient and strict
+   parsing agree on every line strict parsing accepts and that the result does not depend on the parser object's
+   history. *)
+From Clikit Require Import Base.Prelude Base.Res Model.Conv Model.Format Model.Parser Model.Spell
+     Proofs.ParserLemmas Proofs.SpellLemmas.
 
 Theorem access_agrees_options : forall f a n m o,
   get_option f n true = Ok o -> get_option f m true = Ok o -> args_option f a n = args_option f a m.
@@ -51,3 +57,27 @@ Print Assumptions tail_is_never_read_as_options.
 Theorem spelled_lines_mode_independent : forall f toks r, parse f false toks = Ok r -> parse f true toks = Ok r.
 Proof. exact lenient_extends_strict_lemma. Qed.
 Print Assumptions spelled_lines_mode_independent.
+
+(* ---- a well-formed line parses to the assignment it spells ---- *)
+(* stage 1: option items only (all five written forms and grouped short options) *)
+Theorem parse_spells_stage1 : forall f d, fmt_ok f = true -> wf_line f d = true ->
+  no_positionals d = true -> no_names d = true ->
+  forall lenient, parse f lenient (render d) = Ok (denote f d).
+Proof. exact parse_spells_stage1_lemma. Qed.
+Print Assumptions parse_spells_stage1.
+(* stage 2: + positional arguments, interleaved, and the "--" tail *)
+Theorem parse_spells_stage2 : forall f d, fmt_ok f = true -> wf_line f d = true -> no_names d = true ->
+  forall lenient, parse f lenient (render d) = Ok (denote f d).
+Proof. exact parse_spells_stage2_lemma. Qed.
+Print Assumptions parse_spells_stage2.
+(* stage 3 = the full statement: + leading command names or aliases, given or omitted *)
+Theorem parse_spells : forall f d, fmt_ok f = true -> wf_line f d = true ->
+  forall lenient, parse f lenient (render d) = Ok (denote f d).
+Proof. exact parse_spells_lemma. Qed.
+Print Assumptions parse_spells.
+(* the hypotheses are satisfiable, by a format and a line that exercise every clause *)
+Theorem parse_spells_not_vacuous :
+  fmt_ok SpellExamples.F1 = true /\ wf_line SpellExamples.F1 SpellExamples.D1 = true /\
+  fmt_ok SpellExamples.F2 = true /\ wf_line SpellExamples.F2 SpellExamples.D1 = true.
+Proof. exact (conj SpellExamples.F1_ok (conj SpellExamples.D1_wf (conj SpellExamples.F2_ok (proj1 SpellExamples.D1_parses_over_base)))). Qed.
+Print Assumptions parse_spells_not_vacuous.
